@@ -595,7 +595,13 @@ def to_json_ast(spec, rng: Rng) -> dict:
         spec['decoys'] + spec['extra_comps']
     decls = rng.shuffle(decls)
     root_elements = []
-    root_elements.append({'<class>': 'file-name', 'name': './' + spec['basename'] + '.dzn'})
+    # `dzn parse` output opens with a file-name marker; the grammar the parser accepts does not require that:
+    # markers and imports may come anywhere, several times, or not at all
+    lead = rng.weighted([(6, 'marker-first'), (2, 'import-first'), (1, 'no-marker')])
+    if lead == 'import-first':
+        root_elements.append({'<class>': 'import', 'name': 'Early' + str(rng.below(99)) + '.dzn'})
+    if lead != 'no-marker':
+        root_elements.append({'<class>': 'file-name', 'name': './' + spec['basename'] + '.dzn'})
     for _ in range(rng.between(0, 2)):
         root_elements.append({'<class>': 'import', 'name': 'Imp' + str(rng.below(99)) + '.dzn'})
 
@@ -622,6 +628,9 @@ def to_json_ast(spec, rng: Rng) -> dict:
         place(root_elements, list(d['ns']), _j_decl(d, rng), True)
         if rng.chance(10):
             root_elements.append({'<class>': 'bogus-element', 'name': 'ignored'})
+        if rng.chance(8):
+            root_elements.append({'<class>': 'file-name', 'name': './inc/Other' + str(rng.below(9)) + '.dzn'})
+            root_elements.append({'<class>': 'import', 'name': 'Late' + str(rng.below(99)) + '.dzn'})
     root = {'<class>': 'root', 'elements': root_elements, 'working-directory': '/work/' + spec['basename']}
     if rng.chance(60):
         root['comment'] = {'<class>': 'comment', 'string': '// generated model ' + spec['basename'] + '\n'}
